@@ -33,6 +33,7 @@ RULE = ('cases = every uniform-depth shape with <=4 levels and <=6 leaves x 2 na
         'of each are compared with the model, and every one-edit malformed variant must be rejected (thinned to 1500 per '
         'random tree); non-trivial = (tree case with >=2 levels and >=2 leaves) or (label table with >=2 levels that is '
         'a tree with >=2 leaves, or is not a tree); distinct = distinct spec hash')
+RULE += '; label schemes include labels padded with blanks and level names that are prefixes of each other'
 ASSUMPTIONS = ['every non-leaf node has >=1 child and child lists are duplicate-free (documented input domain); '
                'a duplicate of a child inside the same list and a childless top-level node are not generated',
                'order of children / nodes / pairs in returned lists is not compared; inside one pair the two leaves are '
